@@ -14,7 +14,7 @@ MC_Polys == (1 :> <<3,5,1>> @@ 2 :> <<1,4,8>> @@ 3 :> <<6,2,2>>)
 MC_RPolys == (1 :> <<4,1>> @@ 2 :> <<9,3>> @@ 3 :> <<1,10>>)
 MC_DCoeffs == <<5,8>>
 MC_KNonce == 2
-MC_Crash == {{b} : b \in {"dkg1","dkg2","dkg3","commit","rdkg1","rdkg2","rdkg3","dealer_share","dealer_kp","commit2"}} \cup {{}, {"dkg1","dkg2","dkg3","commit","rdkg1","rdkg2","rdkg3","dealer_share","dealer_kp","commit2"}}
+MC_Crash == {{b} : b \in {"dkg1","dkg2","dkg3","commit","rdkg1","rdkg2","rdkg3","dealer_share","dealer_kp","repair_delta","repair_sigma","repair_kp","commit2"}} \cup {{}, {"dkg1","dkg2","dkg3","commit","rdkg1","rdkg2","rdkg3","dealer_share","dealer_kp","repair_delta","repair_sigma","repair_kp","commit2"}}
 MC_Forms == {"bin","json"}
 MC_Msg == <<>>
 MC_EMIT == TRUE
